@@ -79,6 +79,25 @@ fn wanted_crate(name: &str) -> bool {
     crates.split(',').any(|w| w == name)
 }
 
+/// is it safe to hand this (type, value) to rustc's const pretty printer? It ICEs on array types whose length is
+/// not yet evaluated (e.g. `[u8; SOME_CONST]`), so only fully evaluated, simple shapes are printed.
+fn safe_mode() -> bool {
+    std::env::var("PGFACTS_SAFE").map(|v| v == "1").unwrap_or(false)
+}
+
+fn printable_const_ty<'tcx>(tcx: TyCtxt<'tcx>, t: Ty<'tcx>) -> bool {
+    if safe_mode() {
+        return false;
+    }
+    match *t.kind() {
+        ty::Bool | ty::Char | ty::Int(_) | ty::Uint(_) | ty::Str => true,
+        ty::Ref(_, inner, _) => printable_const_ty(tcx, inner),
+        ty::Slice(inner) => printable_const_ty(tcx, inner),
+        ty::Array(inner, len) => len.try_to_target_usize(tcx).is_some() && printable_const_ty(tcx, inner),
+        _ => false,
+    }
+}
+
 fn ty_str(t: Ty<'_>) -> String {
     format!("{}", t)
 }
@@ -148,7 +167,7 @@ impl<'a, 'tcx> Cx<'a, 'tcx> {
                     use rustc_middle::ty::TypeVisitableExt;
                     a.has_param() || a.has_infer() || a.has_aliases()
                 });
-                if !has_params {
+                if !has_params && !safe_mode() {
                     if let Ok(Some(inst)) = ty::Instance::try_resolve(tcx, env, did, args) {
                         let rd = inst.def_id();
                         o.put("resolved", J::s(path_of(tcx, rd)));
@@ -202,9 +221,12 @@ impl<'a, 'tcx> Cx<'a, 'tcx> {
                     .set("t", J::s("int"))
                     .set("v", J::Int(s.to_bits_unchecked() as i128));
             }
-            // byte arrays etc: render with the pretty printer
-            let c = mir::Const::Val(val, t);
-            return J::obj().set("t", J::s("pretty")).set("v", J::s(format!("{}", c)));
+            // byte arrays etc: render with the pretty printer (only for shapes it is known to handle)
+            if printable_const_ty(tcx, t) {
+                let c = mir::Const::Val(val, t);
+                return J::obj().set("t", J::s("pretty")).set("v", J::s(format!("{}", c)));
+            }
+            return J::obj().set("t", J::s("opaque")).set("v", J::s(ty_str(t)));
         }
         J::Null
     }
@@ -1039,8 +1061,10 @@ fn dump_items<'tcx>(tcx: TyCtxt<'tcx>) -> J {
                         if let Some(s) = val.try_to_scalar_int() {
                             o.put("int", J::Int(s.to_bits_unchecked() as i128));
                         }
-                        let c = mir::Const::Val(val, t);
-                        o.put("pretty", J::s(format!("{}", c)));
+                        if printable_const_ty(tcx, t) {
+                            let c = mir::Const::Val(val, t);
+                            o.put("pretty", J::s(format!("{}", c)));
+                        }
                     }
                 }
                 consts.push(o);
